@@ -32,13 +32,13 @@ fn parse_digests(out: &str) -> Vec<String> {
 pub fn run(ctx: &Ctx) -> Report {
     let thorough = ctx.tier.is_thorough();
     let seed = ctx.seed;
-    let n_chain = ctx.scale(60, 800);
-    let n_other = ctx.scale(20, 300);
+    let n_chain = ctx.scale(240, 6000);
+    let n_other = ctx.scale(80, 2000);
     let chain_len = 14usize;
     // (3) separate processes, started in the background >= 1 s apart
     let exe = std::env::current_exe().expect("current exe");
-    let proc_n = ctx.scale(24, 120);
-    let proc_other = ctx.scale(8, 40);
+    let proc_n = ctx.scale(60, 600);
+    let proc_other = ctx.scale(20, 200);
     let mut children = vec![];
     for i in 0..3 {
         let c = Command::new(&exe)
